@@ -1046,6 +1046,12 @@ def float_case(args):
             if int(np.prod(shape)) // shape[1] < 2:
                 shape = (shape[0] + 1,) + shape[1:]
             x = nrng.normal(size=shape) * rng.choice([1.0, 5.0]) + rng.choice([0.0, 3.0])
+            xdt = "float64"
+            if rng.random() < 0.3:
+                # integer-valued batches are accepted and normalised in floating point
+                xdt = rng.choice(["int64", "int32", "uint8"])
+                x = np.round(np.abs(x) * 3 if xdt == "uint8" else x * 3).astype(xdt)
+            info.update(dtype=xdt)
             C = shape[1]
             gamma = nrng.normal(size=C) if rng.random() < 0.6 else None
             beta = nrng.normal(size=C) if rng.random() < 0.6 else None
